@@ -7,6 +7,7 @@ from harness.core import coq_str, coq_list
 from harness.gen import ftree as T
 from harness.impl import tree as I
 from harness.props import c01types as TY
+from harness.props import c01cascade as TC
 
 IMPORTS = "From Ford Require Import Base.Str Sem.Tree Corr.C01."
 CASE_T = "str * list stmt * (ent + nat) * option ent"
@@ -138,12 +139,15 @@ def include_layer(chk, rng, quick):
 
 
 def run(chk):
-    chk.build(["theories/Corr/C01.vo", "theories/Props/C01.vo"] + list(TY.BUILD_TARGETS))
+    chk.translate(TC.TRANSLATORS)
+    chk.build(["theories/Corr/C01.vo", "theories/Props/C01.vo"] + list(TY.BUILD_TARGETS) + list(TC.BUILD_TARGETS))
     chk.props("theories/Props/C01.v", THEOREMS)
     chk.props(TY.PROPS_FILE, TY.THEOREMS)
+    chk.props(TC.PROPS_FILE, TC.THEOREMS)
     if chk.tier == "thorough":
-        chk.coqchk(["Ford.Props.C01", "Ford.Props.C01types"])
+        chk.coqchk(["Ford.Props.C01", "Ford.Props.C01types", "Ford.Props.C01cascade"])
     TY.run_part(chk)
+    TC.run_part(chk)
     rng = chk.rng
     quick = chk.tier == "quick"
     work = tempfile.mkdtemp(prefix="verif_c01_")
@@ -190,6 +194,9 @@ def run(chk):
 
 def replay(chk, rep):
     r = TY.replay_part(chk, rep)
+    if r is not None:
+        return r
+    r = TC.replay_part(chk, rep)
     if r is not None:
         return r
     res = I.parse_text(rep["text"])
